@@ -195,8 +195,8 @@ pub fn gen_plan(rng: &mut Rng, prof: &Profile, thorough: bool) -> Plan {
         // recorded as a known finding under C12 and must not leak into the other checks
         let amount = if cfg.ppm > 0 && (amount as u128 * cfg.ppm as u128) > (u64::MAX as u128) / 2 { (u64::MAX / 2) / cfg.ppm as u64 } else { amount };
         let signer = match prof {
-            Profile::Classify => rng.pick(&[Signer::Payee, Signer::ExplicitPayee, Signer::ExplicitPayeeWrongKey, Signer::RecoveredOther]).clone(),
-            _ => rng.pick(&[Signer::Payee, Signer::Payee, Signer::Payee, Signer::ExplicitPayee, Signer::RecoveredOther, Signer::ExplicitPayeeWrongKey]).clone(),
+            Profile::Classify => rng.pick(&[Signer::Payee, Signer::ExplicitPayee, Signer::ExplicitPayeeWrongKey, Signer::RecoveredOther, Signer::ExplicitPayeeOtherRecid]).clone(),
+            _ => rng.pick(&[Signer::Payee, Signer::Payee, Signer::Payee, Signer::ExplicitPayee, Signer::RecoveredOther, Signer::ExplicitPayeeWrongKey, Signer::ExplicitPayeeOtherRecid]).clone(),
         };
         let hints = match prof {
             Profile::Classify => rng.pick(&[Hints::None, Hints::Other, Hints::SelfLast, Hints::SelfNotLast, Hints::OtherThenSelfLast]).clone(),
@@ -294,6 +294,8 @@ pub fn gen_plan(rng: &mut Rng, prof: &Profile, thorough: bool) -> Plan {
             // an incoming HTLC usually carries a little more than the onion says to forward
             let forward = match forward {
                 Some(f) if rng.chance(1, 4) => Some(f.saturating_sub(1 + rng.below(2000))),
+                // or claims to forward more than the HTLC actually carries (sender-controlled onion)
+                Some(f) if rng.chance(1, 8) => Some(f.saturating_add(if rng.chance(1, 2) { need.min(u64::MAX as u128) as u64 } else { 1 + rng.below(5000) })),
                 f => f,
             };
             let forward = if rng.chance(1, 60) { None } else { forward };
